@@ -1,8 +1,175 @@
+(* C06 -- constraint moments measure exactly the documented parity violations.
+   Only statements, `exact`, and Print Assumptions.  All theorems are about the definitions of
+   FL.Moments that the correspondence run evaluates (index, gamma = map gamma_at index, bound, ...). *)
 From Coq Require Import QArith ZArith List.
-From FL Require Import Num Moments Moments_proofs.
+From FL Require Import Num ListX Moments Moments_proofs.
+From FLGen Require Gen_moments.
 Import ListNotations.
+Open Scope Q_scope.
 
-Theorem C06_bound_const : forall (eps : Q) (k : kind) (rows : list row),
+(* one '+' and one '-' entry for every (event, group) pair that occurs, nothing else, no duplicates *)
+Theorem C06_index_exact :
+  forall (k : kind) (rows : list row),
+  NoDup (index k rows) /\
+  forall s e g, In (s, (e, g)) (index k rows) <->
+                exists rw, In rw rows /\ event_of k rw = Some e /\ rg rw = g.
+Proof. exact index_exact. Qed.
+Print Assumptions C06_index_exact.
+
+(* rows outside the conditioned label class belong to no event, with or without a control value *)
+Theorem C06_event_none :
+  forall (k : kind) (rw : row),
+  event_of k rw = None <->
+  match k with TPR => ry rw <> 1%Z | FPR => ry rw <> 0%Z | _ => False end.
+Proof. exact event_none_iff. Qed.
+Print Assumptions C06_event_none.
+
+(* events are (control stratum, label class) -- or (control stratum, "all") *)
+Theorem C06_event_some :
+  forall (k : kind) (rw : row) (e : event),
+  event_of k rw = Some e -> fst e = rc rw /\
+  match k with DP | ERP => snd e = all_code | _ => snd e = ry rw end.
+Proof. exact event_some. Qed.
+Print Assumptions C06_event_some.
+
+Theorem C06_gamma_is_indexed :
+  forall (k : kind) (r : Q) (rows : list row) (h : list Q),
+  gamma k r rows h = map (gamma_at k r rows h) (index k rows).
+Proof. exact gamma_is_map. Qed.
+Print Assumptions C06_gamma_is_indexed.
+
+(* for EVERY ratio r, dataset and prediction vector; positivity of the cell counts is derived from
+   membership in the index, not assumed *)
+Theorem C06_gamma_spec :
+  forall (k : kind) (r : Q) (rows : list row) (h : list Q) (e : event) (g : Z),
+  In (e, g) (pairs_of k rows) ->
+  let u := pred k rows h in
+  gamma_at k r rows h (Plus, (e, g))
+    == r * mean_on (in_eg k e g) rows u - mean_on (in_event k e) rows u /\
+  gamma_at k r rows h (Minus, (e, g))
+    == r * mean_on (in_event k e) rows u - mean_on (in_eg k e g) rows u.
+Proof. exact gamma_spec. Qed.
+Print Assumptions C06_gamma_spec.
+
+(* u is the prediction itself ... *)
+Theorem C06_pred_default :
+  forall (k : kind) (rows : list row) (h : list Q),
+  k <> ERP -> length h = length rows -> Forall2 Qeq (pred k rows h) h.
+Proof. exact pred_default. Qed.
+Print Assumptions C06_pred_default.
+
+(* ... or the error indicator |h - y| for error-rate parity (hard h) *)
+Theorem C06_pred_error_rate_parity :
+  forall (rows : list row) (h : list Q),
+  length h = length rows ->
+  Forall (fun rw => ry rw = 0%Z \/ ry rw = 1%Z) rows ->
+  Forall (fun x => x == 0 \/ x == 1) h ->
+  Forall2 (fun p t => p == qabs (snd t - inject_Z (ry (fst t)))) (pred ERP rows h) (combine rows h).
+Proof. exact pred_erp_hard. Qed.
+Print Assumptions C06_pred_error_rate_parity.
+
+Theorem C06_no_event_rows_inert :
+  forall (k : kind) (r : Q) (rows : list row) (h h' : list Q) (j : idx),
+  length h = length rows -> length h' = length rows ->
+  agree_on_events k rows h h' ->
+  gamma_at k r rows h j == gamma_at k r rows h' j.
+Proof. exact no_event_rows_inert. Qed.
+Print Assumptions C06_no_event_rows_inert.
+
+Theorem C06_strata_independent :
+  forall (k : kind) (r : Q) (rows : list row) (h : list Q) (s : sign) (e : event) (g : Z),
+  In (e, g) (pairs_of k rows) ->
+  let c := fst e in
+  gamma_at k r rows h (s, (e, g))
+  == gamma_at k r (restrict_rows c rows) (restrict_vec c rows h) (s, (e, g)).
+Proof. exact strata_independent. Qed.
+Print Assumptions C06_strata_independent.
+
+Theorem C06_bound_const :
+  forall (eps : Q) (k : kind) (rows : list row),
   length (bound eps k rows) = length (index k rows) /\ Forall (fun b => b = eps) (bound eps k rows).
 Proof. exact bound_const. Qed.
 Print Assumptions C06_bound_const.
+
+(* BoundedGroupLoss: one entry per group that occurs; the entry is the group mean of the clipped loss;
+   the clipped loss lies in [0, loss.max] *)
+Theorem C06_bgl_index_exact :
+  forall (rows : list lrow) (g : Z),
+  In g (bgl_index rows) <-> exists rw, In rw rows /\ snd rw = g.
+Proof. exact bgl_index_exact. Qed.
+Print Assumptions C06_bgl_index_exact.
+
+Theorem C06_bgl_gamma_spec :
+  forall (l : loss) (rows : list lrow) (h : list Q),
+  bgl_gamma l rows h
+  = map (fun g => let sel := filter (fun t => (fst t =? g)%Z) (combine (map snd rows) (losses l rows h)) in
+                  qsum (map snd sel) / inject_nat (length sel)) (bgl_index rows)
+  /\ losses l rows h = zipw (fun rw p => loss_eval l (fst rw) p) rows h.
+Proof. exact bgl_gamma_spec. Qed.
+Print Assumptions C06_bgl_gamma_spec.
+
+Theorem C06_loss_range :
+  forall (l : loss) (y p : Q),
+  (match l with Square lo hi | Absolute lo hi => lo <= hi end) ->
+  0 <= loss_eval l y p /\ loss_eval l y p <= loss_max l.
+Proof. exact loss_range. Qed.
+Print Assumptions C06_loss_range.
+
+(* ---- source tie: the kernels REGENERATED from utility_parity.py by translators/t_moments.py (FLGen.Gen_moments)
+   are the ones the model uses; each `exact` below succeeds only if the generated definition is convertible to
+   the expression written in the model ---- *)
+Module G := Gen_moments.
+
+Theorem C06_src_uentry :
+  forall k r s e g pe peg rw,
+  uentry k r s e g pe peg rw =
+  let es := ind (in_event k e rw) in
+  let ges := es * ind (in_group g rw) in
+  match s with Plus => G.uplus r es ges pe peg | Minus => G.uminus r es ges pe peg end.
+Proof. exact src_uentry. Qed.
+Print Assumptions C06_src_uentry.
+
+Theorem C06_src_event_of :
+  forall k rw, event_of k rw = G.combine_event_control (base_event k (ry rw)) (rc rw).
+Proof. exact src_event_of. Qed.
+Print Assumptions C06_src_event_of.
+
+Theorem C06_src_base_event :
+  forall y,
+  base_event DP y = G.base_event_DP y /\ base_event TPR y = G.base_event_TPR y /\
+  base_event FPR y = G.base_event_FPR y /\ base_event EO y = G.base_event_EO y /\
+  base_event ERP y = G.base_event_ERP y.
+Proof. exact src_base_event. Qed.
+Print Assumptions C06_src_base_event.
+
+Theorem C06_src_utilities :
+  forall rw,
+  (u0 DP rw = G.util0_DP (ry rw) /\ u1 DP rw = G.util1_DP (ry rw)) /\
+  (u0 TPR rw = G.util0_TPR (ry rw) /\ u1 TPR rw = G.util1_TPR (ry rw)) /\
+  (u0 FPR rw = G.util0_FPR (ry rw) /\ u1 FPR rw = G.util1_FPR (ry rw)) /\
+  (u0 EO rw = G.util0_EO (ry rw) /\ u1 EO rw = G.util1_EO (ry rw)) /\
+  (u0 ERP rw = G.util0_ERP (ry rw) /\ u1 ERP rw = G.util1_ERP (ry rw)).
+Proof. exact src_utilities. Qed.
+Print Assumptions C06_src_utilities.
+
+Theorem C06_src_pred :
+  forall k rows h, pred k rows h = zipw (fun rw hi => G.pred_entry (udiff k rw) hi (u0 k rw)) rows h.
+Proof. exact src_pred. Qed.
+Print Assumptions C06_src_pred.
+
+Theorem C06_src_gamma_at :
+  forall k r rows h j,
+  gamma_at k r rows h j = G.gamma_entry (dot (ucol k r rows j) (pred k rows h)) (nrows rows).
+Proof. exact src_gamma_at. Qed.
+Print Assumptions C06_src_gamma_at.
+
+(* non-vacuity: TPR parity with a control feature; the premise of gamma_spec holds for a label-1 cell and the
+   '+' entry of the half-predictor is computed (1/4 - 1/2 ... as a concrete rational) *)
+Example C06_example :
+  let rows := [mkRow 0 0 (Some 0%Z); mkRow 1 0 (Some 0%Z); mkRow 1 1 (Some 0%Z); mkRow 1 1 (Some 1%Z);
+               mkRow 0 1 (Some 1%Z)] in
+  let e : event := (Some 0%Z, 1%Z) in
+  In (e, 0%Z) (pairs_of TPR rows) /\ length (index TPR rows) = 6%nat /\
+  gamma_at TPR (1 # 2) rows [1; 1; 0; 1; 1] (Plus, (e, 0%Z)) == 0 /\
+  event_of TPR (mkRow 0 0 (Some 0%Z)) = None.
+Proof. cbv zeta. repeat split; vm_compute; auto. Qed.
